@@ -340,6 +340,7 @@ TIME_FAMILIES = {
     "long_bytes_continued": lambda n: "x = b'" + ("abc\\\n") * (4 * n) + "'\n",
     "string_in_with_macro": lambda n: "with! c:\n    s = '''\n" + ("    line of text\n") * (4 * n) + "    '''\nz = 1\n",
     "unclosed_quote_then_tokens": lambda n: "x = '" + "a+" * n + "a\n",
+    "unclosed_quote_escaped_later": lambda n: '"' + "a," * n + '\\"\n',
     "unclosed_quote_in_macro": lambda n: "f!(it's " + "a " * n + ")\n'\n",
     "combining_marks": lambda n: "x" + "\u0301" * (4 * n) + " = 1\n",
     "long_flat_line": lambda n: "x = " + "a + " * n + "a\n",
